@@ -1134,6 +1134,9 @@ class _Ctx:
             return IMM
         if name == 'deepcopy':
             return FRESH
+        if name == 'copy' and len(argv) == 1:
+            # copy.copy(x): a new object / container whose attributes and elements are those of x
+            return Val(EMPTY, argv[0].reach(), argv[0].kind, argv[0].eimm)
         if name == 'getattr' and argv:
             r = argv[0].reach(); return mk(r, r)
         if name == 'setattr' and argv:
